@@ -42,6 +42,8 @@ def run(an: Analysis, rep):
     rep.run(c02.r026, an, shx)
     rep.run(c02.r027, an, shx)
     rep.run(c02.r028, an, shx)
+    from .common import identity_rule
+    rep.run(identity_rule, an, rep, "R13.I", ["from_code"])
     rep.run(c02.r02f, an, SharedRules(rep, "R13.F", "the decoder's instruction function folded over witness code units (shared with C02's R02.F): the blocks it returns begin exactly at "
                                                    "offset 0 and at the jump targets, none is empty, every jump holds the index of the block at its target"))
     rep.stats.update(an.stats([an.interp("from_code")[0]]))
